@@ -12,6 +12,8 @@ import traceback
 
 HERE = os.path.dirname(os.path.abspath(__file__))
 ROOT = os.path.dirname(HERE)
+# developer override (seeded-change campaigns run on a scratch clone without touching the committed evidence)
+EVDIR = os.environ.get("VERIF_EVIDENCE_DIR") or os.path.join(ROOT, "evidence")
 sys.path.insert(0, HERE)
 sys.path.insert(0, os.path.join(ROOT, "spec"))
 
@@ -294,7 +296,7 @@ def run_check(prop, tier, seed):
         except Exception as e:   # the second engine must never mask the verifier's verdict
             log("dynamic stage failed: %s" % e)
             undecided.append("dynamic stage (native build / random search / kani) failed: %s" % str(e).split("\n")[0][:200])
-        rdir = os.path.join(ROOT, "evidence", "replay")
+        rdir = os.path.join(EVDIR, "replay")
         if viol_rel:
             status = 1
             os.makedirs(rdir, exist_ok=True)
@@ -410,9 +412,9 @@ def run_check(prop, tier, seed):
         else:
             shutil.rmtree(scratch, ignore_errors=True)
     evidence["wall_s"] = round(time.time() - t0, 2)
-    os.makedirs(os.path.join(ROOT, "evidence"), exist_ok=True)
+    os.makedirs(EVDIR, exist_ok=True)
     if status != 2 or evidence["coverage"]:
-        with open(os.path.join(ROOT, "evidence", "%s.json" % prop), "w") as f:
+        with open(os.path.join(EVDIR, "%s.json" % prop), "w") as f:
             json.dump(evidence, f, indent=1)
     log("%s %s: status=%d obligations=%s discharged=%s wall=%.1fs" % (prop, tier, status,
         evidence["coverage"].get("obligations"), evidence["coverage"].get("discharged"), evidence["wall_s"]))
